@@ -1,7 +1,7 @@
 (** C16: Earth model and geodetic transforms are one coherent ellipsoidal geometry.
     Theorems about the GENERATED definitions (Gen/Earth.v, Gen/Transform.v,
     Gen/NumbaIntegrate.v) against the hand-written Spec/Ellipsoid.v. *)
-From Coq Require Import Reals Lra Lia.
+From Coq Require Import Reals Lra Lia Nsatz.
 From Coquelicot Require Import Coquelicot.
 From PV Require Import Base.RealTac Spec.LibSpecs Spec.Ellipsoid.
 From PV Require Import Gen.Earth Gen.Transform Gen.NumbaIntegrate.
@@ -23,7 +23,18 @@ Ltac with_q phi :=
   assert (q * q = 1 - 66943799901413 / 10000000000000000 * (sin phi * sin phi))
     by (apply sqrtW_sq);
   assert (0 < q) by (apply sqrtW_pos);
-  assert (q <> 0) by lra.
+  assert (q <> 0) by lra;
+  assert (0 < 1 - 66943799901413 / 10000000000000000 * (sin phi * sin phi)) by (apply W_pos').
+
+Ltac fold_minus :=
+  repeat match goal with |- context [?a + - ?b] => change (a + - b) with (a - b) end.
+
+(* make the numeric constants abstract so that [ring [H..]] can use q*q = 1 - e2*s*s *)
+Ltac abs_consts :=
+  replace (9933056200098587 / 10000000000000000)
+    with (1 - 66943799901413 / 10000000000000000) in * by lra;
+  set (e2c := 66943799901413 / 10000000000000000) in *;
+  set (ac := 6378137) in *.
 
 (** ** 1. lla_to_ecef is the geodetic parametrisation of the ellipsoid *)
 
@@ -129,8 +140,9 @@ Lemma frame_orthonormal phi lam :
   east_x phi lam * up_x phi lam + east_y phi lam * up_y phi lam + east_z phi lam * up_z phi lam = 0.
 Proof.
   unfold north_x, north_y, north_z, east_x, east_y, east_z, up_x, up_y, up_z.
-  pose proof (sc1 phi) as Hp. pose proof (sc1 lam) as Hl.
-  repeat split; nra.
+  assert (Hp : sin phi * sin phi = 1 - cos phi * cos phi) by (pose proof (sc1 phi); lra).
+  assert (Hl : sin lam * sin lam = 1 - cos lam * cos lam) by (pose proof (sc1 lam); lra).
+  repeat split; ring [Hp Hl].
 Qed.
 
 (** determinant +1: north x east = down *)
@@ -140,8 +152,9 @@ Lemma frame_right_handed phi lam :
   north_x phi lam * east_y phi lam - north_y phi lam * east_x phi lam = - up_z phi lam.
 Proof.
   unfold north_x, north_y, north_z, east_x, east_y, east_z, up_x, up_y, up_z.
-  pose proof (sc1 phi) as Hp. pose proof (sc1 lam) as Hl.
-  repeat split; nra.
+  assert (Hp : sin phi * sin phi = 1 - cos phi * cos phi) by (pose proof (sc1 phi); lra).
+  assert (Hl : sin lam * sin lam = 1 - cos lam * cos lam) by (pose proof (sc1 lam); lra).
+  repeat split; ring [Hp Hl].
 Qed.
 
 Lemma mat_en_orthonormal lat lon :
@@ -174,7 +187,215 @@ Lemma ecef_partial_lat lat lon alt :
 Proof.
   intros Hlat. cbv zeta. unfold north_x, north_y, north_z, d2r. unf_radii. unf_ecef.
   pose proof (W_pos' (lat * (PI/180))) as HW.
-  repeat split; auto_derive; try (repeat split; auto; lra);
-    set (phi := lat * (PI/180)) in *; set (lam := lon * (PI/180)); with_q phi;
-    pose proof (sc1 phi) as Hp; field_simplify_eq; try lra; try nra.
+  pose proof (sqrtW_pos (lat * (PI/180))) as HQ.
+  split; [|split]; (auto_derive; [repeat split; auto; unfold Rminus in *; lra|]);
+    fold_minus; set (phi := lat * (PI/180)) in *; set (lam := lon * (PI/180)); with_q phi;
+    assert (Hc : cos phi * cos phi = 1 - sin phi * sin phi) by (pose proof (sc1 phi); lra);
+    abs_consts;
+    match goal with H : ?q * ?q = 1 - _ |- _ =>
+      rewrite <- H; field_simplify_eq; [ring [H Hc] | lra] end.
+Qed.
+
+Lemma ecef_partial_lon lat lon alt :
+  -90 <= lat <= 90 ->
+  let phi := lat * d2r in let lam := lon * d2r in
+  let k := d2r * principal_radii_rp lat alt in
+  is_derive (fun t => lla_to_ecef_r0 lat t alt) lon (k * east_x phi lam) /\
+  is_derive (fun t => lla_to_ecef_r1 lat t alt) lon (k * east_y phi lam) /\
+  is_derive (fun t => lla_to_ecef_r2 lat t alt) lon (k * east_z phi lam).
+Proof.
+  intros Hlat. cbv zeta. unfold east_x, east_y, east_z, d2r. unf_radii. unf_ecef.
+  rewrite (sqrt_1msin2 (lat * (PI/180))) by (apply cos_d2r_nonneg; exact Hlat).
+  split; [|split]; (auto_derive; [auto|]); ring.
+Qed.
+
+Lemma ecef_partial_alt lat lon alt :
+  let phi := lat * d2r in let lam := lon * d2r in
+  is_derive (fun t => lla_to_ecef_r0 lat lon t) alt (up_x phi lam) /\
+  is_derive (fun t => lla_to_ecef_r1 lat lon t) alt (up_y phi lam) /\
+  is_derive (fun t => lla_to_ecef_r2 lat lon t) alt (up_z phi lam).
+Proof.
+  cbv zeta. unfold up_x, up_y, up_z, d2r. unf_ecef.
+  split; [|split]; (auto_derive; [auto|]); ring.
+Qed.
+
+(** ** 4. Metre perturbation and metre difference agree to first order *)
+
+Ltac unf_pd := unfold compute_lla_difference_d0, compute_lla_difference_d1, compute_lla_difference_d2,
+                 perturb_lla_lat, perturb_lla_lon, perturb_lla_alt;
+               repeat autounfold with compute_lla_difference_db perturb_lla_db.
+
+Lemma rn_pos lat alt : -1000000 <= alt ->
+  0 < 6378137 / sqrt (1 - 66943799901413 / 10000000000000000 * (sin lat * sin lat)) *
+      (9933056200098587 / 10000000000000000) /
+      (1 - 66943799901413 / 10000000000000000 * (sin lat * sin lat)) + alt.
+Proof.
+  intro Ha. with_q lat.
+  match goal with H : ?q * ?q = _ |- _ => rewrite <- H end.
+  assert (q * q <= 1) by (pose proof (sin2_le1 lat); nra).
+  assert (q <= 1) by nra.
+  assert (6000000 <= 6378137 / q * (9933056200098587 / 10000000000000000) / (q * q)).
+  { apply Rmult_le_reg_r with (q * q * q); [nra|].
+    replace (6378137 / q * (9933056200098587 / 10000000000000000) / (q * q) * (q * q * q))
+      with (6378137 * (9933056200098587 / 10000000000000000)) by (field; lra).
+    assert (q * q * q <= 1) by nra. nra. }
+  lra.
+Qed.
+
+Lemma re_pos lat alt : -1000000 <= alt ->
+  0 < 6378137 / sqrt (1 - 66943799901413 / 10000000000000000 * (sin lat * sin lat)) + alt.
+Proof.
+  intro Ha. with_q lat.
+  assert (q * q <= 1) by (pose proof (sin2_le1 lat); nra).
+  assert (q <= 1) by nra.
+  assert (6378137 <= 6378137 / q).
+  { apply Rmult_le_reg_r with q; [lra|]. replace (6378137 / q * q) with 6378137 by (field; lra). nra. }
+  lra.
+Qed.
+
+(* the mid-point arguments (lat + 0*k + lat)/2 produced by evaluating at d = 0 *)
+Ltac clean_mid :=
+  repeat match goal with
+  | |- context [1 / 2 * (?l + 0 * ?k * ?r + ?l) * ?d] =>
+      replace (1 / 2 * (l + 0 * k * r + l) * d) with (l * d)
+        by lra
+  | |- context [1 / 2 * (?l + 0 / ?k * ?r + ?l) * ?d] =>
+      replace (1 / 2 * (l + 0 / k * r + l) * d) with (l * d)
+        by (unfold Rdiv; lra)
+  | |- context [1 / 2 * (?a - 0 + ?a)] =>
+      replace (1 / 2 * (a - 0 + a)) with a by field
+  end.
+
+Lemma deriv_at0_of_factor (rho : R -> R) :
+  ex_derive rho 0 -> rho 0 = 1 -> is_derive (fun d => d * rho d) 0 1.
+Proof.
+  intros Hex H0. auto_derive; [exact Hex|]. rewrite H0. ring.
+Qed.
+
+Lemma perturb_diff_first_order lat lon alt :
+  -90 < lat < 90 -> -1000000 <= alt ->
+  is_derive (fun d => compute_lla_difference_d0 (perturb_lla_lat lat lon alt d 0 0)
+                        (perturb_lla_lon lat lon alt d 0 0) (perturb_lla_alt lat lon alt d 0 0)
+                        lat lon alt) 0 1 /\
+  is_derive (fun d => compute_lla_difference_d1 (perturb_lla_lat lat lon alt 0 d 0)
+                        (perturb_lla_lon lat lon alt 0 d 0) (perturb_lla_alt lat lon alt 0 d 0)
+                        lat lon alt) 0 1 /\
+  is_derive (fun d => compute_lla_difference_d2 (perturb_lla_lat lat lon alt 0 0 d)
+                        (perturb_lla_lon lat lon alt 0 0 d) (perturb_lla_alt lat lon alt 0 0 d)
+                        lat lon alt) 0 1.
+Proof.
+  intros Hlat Halt. unf_pd.
+  pose proof (rn_pos (lat * (PI/180)) alt Halt) as Hrn.
+  pose proof (re_pos (lat * (PI/180)) alt Halt) as Hre.
+  pose proof (W_pos' (lat * (PI/180))) as HW.
+  pose proof (sqrtW_pos (lat * (PI/180))) as HQ.
+  assert (Hlat' : -90 <= lat <= 90) by lra.
+  pose proof (cos_d2r_pos lat Hlat) as Hcos.
+  assert (Hs : sqrt (1 - sin (lat * (PI/180)) * sin (lat * (PI/180))) = cos (lat * (PI/180)))
+    by (apply sqrt_1msin2; lra).
+  pose proof PI_RGT_0 as Hpi.
+  split; [|split].
+  - match goal with |- is_derive (fun d => (?l + d / ?rn0 * ?r - ?l) * ?c * @?rmid d) 0 1 =>
+      apply (is_derive_ext (fun d => d * (/ rn0 * r * c * rmid d)));
+        [intro d; cbv beta; unfold Rdiv; match goal with |- @eq _ ?a ?b => change (@eq R a b) end; ring|];
+      apply deriv_at0_of_factor
+    end.
+    + auto_derive. clean_mid.
+      repeat split; auto; unfold Rminus in *; try lra; apply Rgt_not_eq; lra.
+    + cbv beta. clean_mid.
+      match goal with |- / ?rn0 * _ * _ * _ = 1 => set (r := rn0) in * end.
+      field. repeat split; try apply PI_neq0; apply Rgt_not_eq; assumption.
+  - match goal with |- is_derive (fun d => (?l + d / ?rp0 * ?r - ?l) * ?c * ?rmid) 0 1 =>
+      apply (is_derive_ext (fun d => d * (/ rp0 * r * c * rmid)));
+        [intro d; cbv beta; unfold Rdiv; match goal with |- @eq _ ?a ?b => change (@eq R a b) end; ring|];
+      apply deriv_at0_of_factor
+    end.
+    + auto_derive. exact I.
+    + clean_mid. rewrite Hs.
+      match goal with |- / (?re0 * _) * _ * _ * _ = 1 => set (r := re0) in * end.
+      field. repeat split; try apply PI_neq0; apply Rgt_not_eq; assumption.
+  - auto_derive; [auto|]. ring.
+Qed.
+
+(** ** 5. Gravity, gravitation, Earth rate: one field in all representations *)
+
+Ltac unf_grav := unfold gravity_g, nb_gravity_g, gravity_n_g0, gravity_n_g1, gravity_n_g2;
+                 repeat autounfold with gravity_db nb_gravity_db gravity_n_db.
+
+Lemma gravity_copies_equal lat alt : nb_gravity_g lat alt = gravity_g lat alt.
+Proof. unf_grav. reflexivity. Qed.
+
+Lemma gravity_n_is_down lat alt :
+  gravity_n_g0 lat alt = 0 /\ gravity_n_g1 lat alt = 0 /\ gravity_n_g2 lat alt = gravity_g lat alt.
+Proof. unf_grav. repeat split; reflexivity. Qed.
+
+Lemma neg_d2r lat : - lat * (PI / 180) = - (lat * (PI / 180)).
+Proof. ring. Qed.
+
+Lemma gravity_even lat alt : gravity_g (- lat) alt = gravity_g lat alt.
+Proof.
+  unf_grav. rewrite neg_d2r, sin_neg.
+  replace (- sin (lat * (PI / 180)) * - sin (lat * (PI / 180)))
+    with (sin (lat * (PI / 180)) * sin (lat * (PI / 180))) by ring.
+  reflexivity.
+Qed.
+
+Lemma gravity_positive lat alt : alt < 3000000 -> 0 < gravity_g lat alt.
+Proof.
+  intro Ha. unf_grav. set (phi := lat * (PI/180)). with_q phi.
+  pose proof (sin2_le1 phi). assert (0 <= sin phi * sin phi) by nra.
+  apply Rmult_lt_0_compat; [apply Rdiv_lt_0_compat; [nra|lra]|lra].
+Qed.
+
+Ltac unf_rate := unfold rate_n_w0, rate_n_w1, rate_n_w2; repeat autounfold with rate_n_db.
+
+Lemma rate_n_parity lat :
+  rate_n_w0 (- lat) = rate_n_w0 lat /\ rate_n_w1 (- lat) = 0 /\ rate_n_w2 (- lat) = - rate_n_w2 lat.
+Proof.
+  unf_rate. rewrite neg_d2r, cos_neg, sin_neg. repeat split; ring.
+Qed.
+
+(** Earth rate in NED is the Earth axis (0,0,RATE) of ECEF seen through mat_en^T. *)
+Lemma rate_n_is_axis_in_ned lat lon :
+  rate_n_w0 lat = mat_en_from_ll_m20 lat lon * RATE_ /\
+  rate_n_w1 lat = mat_en_from_ll_m21 lat lon * RATE_ /\
+  rate_n_w2 lat = mat_en_from_ll_m22 lat lon * RATE_.
+Proof.
+  unf_rate. unf_en. rewrite cos_m90, sin_m90. unfold RATE_. repeat split; ring.
+Qed.
+
+Lemma ecef_parity lat lon alt :
+  lla_to_ecef_r0 (- lat) lon alt = lla_to_ecef_r0 lat lon alt /\
+  lla_to_ecef_r1 (- lat) lon alt = lla_to_ecef_r1 lat lon alt /\
+  lla_to_ecef_r2 (- lat) lon alt = - lla_to_ecef_r2 lat lon alt.
+Proof.
+  unf_ecef. rewrite !neg_d2r, !sin_neg, !cos_neg.
+  replace (- sin (lat * (PI / 180)) * - sin (lat * (PI / 180)))
+    with (sin (lat * (PI / 180)) * sin (lat * (PI / 180))) by ring.
+  repeat split; ring.
+Qed.
+
+Ltac unf_gravitation := unfold gravitation_ecef_g0, gravitation_ecef_g1, gravitation_ecef_g2;
+                        repeat autounfold with gravitation_ecef_db.
+
+(** gravitation = gravity (g along "down") minus centrifugal acceleration w^2 (x, y, 0). *)
+Lemma gravitation_is_gravity_minus_centrifugal lat lon alt :
+  -90 <= lat <= 90 ->
+  let x := lla_to_ecef_r0 lat lon alt in let y := lla_to_ecef_r1 lat lon alt in
+  let z := lla_to_ecef_r2 lat lon alt in
+  gravitation_ecef_g0 lat lon alt =
+    mat_en_from_ll_m02 lat lon * gravity_g lat alt - centrifugal_x RATE_ x y z /\
+  gravitation_ecef_g1 lat lon alt =
+    mat_en_from_ll_m12 lat lon * gravity_g lat alt - centrifugal_y RATE_ x y z /\
+  gravitation_ecef_g2 lat lon alt =
+    mat_en_from_ll_m22 lat lon * gravity_g lat alt - centrifugal_z RATE_ x y z.
+Proof.
+  intros Hlat. cbv zeta. unfold centrifugal_x, centrifugal_y, centrifugal_z, RATE_.
+  unf_gravitation. unf_grav. unf_en. unf_ecef.
+  rewrite !cos_m90, !sin_m90.
+  rewrite (sqrt_1msin2 (lat * (PI/180))) by (apply cos_d2r_nonneg; exact Hlat).
+  set (phi := lat * (PI/180)). set (lam := lon * (PI/180)).
+  assert (Hp : sin phi * sin phi = 1 - cos phi * cos phi) by (pose proof (sc1 phi); lra).
+  with_q phi.
+  repeat split; field_simplify_eq; try lra; ring [Hp].
 Qed.
